@@ -338,6 +338,26 @@ static void run_cmd(const sim::Cmd &c, sim::Out &out)
     ops.push_back(x);
     int n = static_cast<int>(sw.range(4, 14));
     int faults_left = static_cast<int>(sw.range(0, 5));
+    if (sw.chance(1, 5))
+    { // a scripted tail: delay the end of whatever ends first, a few times, then report a still pending atom as failed (twice):
+      // the combination "delayed, ended, then the plan changes" that random fault mixes rarely line up
+      n = 0;
+      auto push = [&](const char *name, std::vector<long> a)
+      {
+        Op o;
+        o.name = name;
+        o.a = a;
+        ops.push_back(o);
+      };
+      for (int i = 0, k = static_cast<int>(sw.range(2, 5)); i < k; ++i)
+      {
+        push("xdend", {static_cast<long>(g.below(2)), static_cast<long>(1 + g.below(3))});
+        push("xtick", {static_cast<long>(g.range(1, 3))});
+      }
+      push("xfailp", {static_cast<long>(g.below(3))});
+      push("xtick", {2});
+      push("xfailp", {static_cast<long>(g.below(3))});
+    }
     for (int i = 0; i < n; ++i)
     {
       Op o;
